@@ -46,3 +46,19 @@ Theorem C07_reference_verifier_sound :
       ref_verify H dec (blind H enc t) L = Some j -> j = drop_alg (proj H enc (ownS H L) t).
 Proof. exact ref_verify_sound. Qed.
 Print Assumptions C07_reference_verifier_sound.
+
+(* ... and COMPLETE: on a conformant token within the nesting limit the reference verifier accepts every list
+   of strings each of which decodes as a disclosure (any subset of the token's disclosures in any order, also
+   foreign ones), none hashing to a decoy, and returns that projection. Together with the entry-point theorem
+   of the issuer (C01) this is "issued SD-JWTs are conformant as judged by an independent verifier". *)
+Theorem C07_reference_verifier_complete :
+  forall (H : string -> string) (enc : list json -> string) (dec : string -> option json),
+    (forall x y, H x = H y -> x = y) ->
+    (forall ps, dec (enc ps) = Some (JArr ps)) ->
+    forall t : atree, wf H enc t -> NoDup (alldigs H enc t) -> NoDup (hdigs H enc t) ->
+    forall (L : list string) (T : rtable),
+      (forall s, In s L -> In (H s) (alldigs H enc t) -> In (H s) (hdigs H enc t)) ->
+      rdecode H dec L = Some T -> aheight t <= 200 ->
+      ref_verify H dec (blind H enc t) L = Some (drop_alg (proj H enc (ownS H L) t)).
+Proof. exact ref_verify_complete. Qed.
+Print Assumptions C07_reference_verifier_complete.
